@@ -98,7 +98,7 @@ def framing_part(ck, rnd, scale):
 
 def run(ck):
     vlib.import_repo()
-    ck.build(["framing", "brokerclient"])
+    ck.build(["framing", "brokerclient", "brokerclienthook"])
     ck.props()
     rnd = random.Random(ck.seed)
     thorough = ck.tier == "thorough"
@@ -120,6 +120,7 @@ def run(ck):
 
     # ---- callbacks re-entering the client from a reply callback (tail position of handleResponse)
     L.reentrant_part(ck, rnd, 500 * scale, THEOREMS_BC)
+    L.reentrant_part(ck, rnd, 400 * scale, ["C06_exactly_once_reentrant", "C06_nothing_after_fired_reentrant"], native=True)
 
     # ---- exhaustive small scope
     L.exhaustive(ck, 7 if thorough else 6, "whole", WHICH, THEOREMS_BC, rnd)
@@ -140,7 +141,7 @@ def run(ck):
         "hand-written Gallina models: Model/Framing.v stands for twisted.protocols.basic.IntNStringReceiver.dataReceived/sendString as configured by afkak/_protocol.py:32-60, KafkaBootstrapProtocol (_protocol.py:63-140) and KafkaCodec.get_response_correlation_id; Model/BrokerClient.v for afkak/brokerclient.py:44-79,148-462. The tie is this run's differential correspondence, not a proof",
         "Twisted (Deferred fire-once/cancel semantics, Clock, IntNStringReceiver) is exercised by the correspondence, not verified; Deferred semantics are summarised in the model as a fire-once cell (AlreadyCalledError = OErr, proved unreachable)",
         "request payload bytes are outside the model (a request is identified by correlation id and handle); sendString/transport.write are assumed not to raise (requests < 4 GiB), so brokerclient.py:370-373 is not modelled",
-        "user callbacks that re-enter the client synchronously are outside the model's alphabet: for callbacks of reply-expecting requests (fired in tail position of handleResponse) this run checks on the real code that the re-entrant call equals the same call as the next event (reentrant_part); the callback of a NO-REPLY request fires in the middle of _sendQueued and re-entering from it is not covered (finding F-C10-1, probed by C10); endpoints whose connect() completes synchronously are checked the same way by C10 (sync_connect_part)",
+        "user callbacks that re-enter the client synchronously are outside the model's alphabet: for callbacks of reply-expecting requests (fired in tail position of handleResponse) this run checks on the real code that the re-entrant call equals the same call as the next event (reentrant_part); the callback of a NO-REPLY request fires in the middle of _sendQueued: close()/cancel() from it are inside the extended model Model/BrokerClientHook.v (C06_exactly_once_reentrant, C06_nothing_after_fired_reentrant; correspondence run here and by C10, finding F-C10-1 repaired by 7c12cf4); endpoints whose connect() completes synchronously are checked the same way by C10 (sync_connect_part)",
         "the paused flag of IntNStringReceiver and the `recvd` compatibility attribute are not modelled (afkak never sets them)",
         "events the environment cannot produce (no transport / attempt / timer / Deferred to act on) are no-ops in the model; the driver checks the implementation side produces no output for them either",
         "extraction: ExtrOcamlBasic only; Z/positive/nat stay Coq datatypes; sample re-evaluated in Coq by vm_compute (the exhaustive enumeration is compared against the extracted runner only)",
